@@ -775,10 +775,25 @@ def _examine_state(spec, workdir, rec):
     except Exception as e:  # noqa: BLE001
         rec.exc("load_state", e)
         return
+    # the fit that took the state over is saved itself straight away (no read in between) and reloaded: a chain of two transports
+    c = None
+    p2 = os.path.join(workdir, "loaded.yml")
+    if os.path.exists(p2):
+        os.remove(p2)
+    try:
+        _write(b, p2, spec)
+        c = _read(type(b), p2)
+        _tr(rec, 2)
+    except Exception as e:  # noqa: BLE001
+        rec.exc("load_state;to_file;from_file", e)
+        return
     oa, ob = _observe("fit", a), _observe("fit", b)
     rec.compare(oa, ob)
+    oc = _observe("fit", c)
+    rec.compare(oa, oc)
     if rec.res is not None:
         rec.res.observe((rec.sig, spec.get("v"), sorted((k, _rnd(x)) for k, x in ob.items() if k != "report")))
+        rec.res.facts["state-chain"] += 1
     ra, rb = _refit(a, rec), _refit(b, rec)
     _compare_refit(ra, rb, rec, compare_errors=spec.get("state", "unfit") in ("unfit", "moved"))
 
